@@ -77,6 +77,10 @@ type Config struct {
 	Verbose       bool
 	InitHook      func(in *Interp)
 	Cert          int // >0: partition certificate with components up to this many bits
+	InitModel     []uint64 // model of the first job (default: all zero)
+	SinglePath    bool     // run only the first job, spawn nothing (concrete replay of InitModel)
+	Twin          bool     // vacuity twin: every check() reached is treated as failing
+	StopAtCap     bool     // stop this exploration once MaxNewViol distinct new violations are recorded
 }
 
 type Result struct {
@@ -169,7 +173,10 @@ func Explore(cfg *Config) *Result {
 	ex.cond = sync.NewCond(&ex.mu)
 	ex.res = &Result{Harness: cfg.Harness, Params: cfg.Params, Outcomes: map[string]int64{}, Unsupported: map[string]int64{},
 		ClauseReach: map[string]int64{}, KnownHits: map[string]int64{}, Funcs: map[string]int{}, PanicMsgs: map[string]int64{}}
-	ex.queue = []Job{{ExclIdx: -1}}
+	ex.queue = []Job{{ExclIdx: -1, Model: cfg.InitModel}}
+	if cfg.SinglePath {
+		ex.queue[0].Bound = 1 << 30
+	}
 	var wg sync.WaitGroup
 	fatal := make(chan string, cfg.Workers)
 	for i := 0; i < cfg.Workers; i++ {
@@ -762,12 +769,12 @@ func (w *worker) Negate(in *Interp, idx int) {
 
 func (w *worker) Check(in *Interp, c Value, clause string) {
 	w.local.ClauseReach[clause]++
-	if c.C == 0 {
+	if c.C == 0 || w.ex.cfg.Twin {
 		w.failed = append(w.failed, clause)
 		w.violation(clause, "", in.Model, "check")
 		return
 	}
-	if c.T == nil {
+	if c.T == nil || w.ex.cfg.SinglePath {
 		return
 	}
 	t, neg := c.T, true
@@ -815,6 +822,11 @@ func (w *worker) violation(clause, detail string, model []uint64, kind string) {
 		if !dup {
 			ex.res.Violations = append(ex.res.Violations, v)
 		}
+	}
+	if ex.cfg.StopAtCap && len(ex.res.Violations) >= ex.cfg.MaxNewViol && !ex.stop {
+		ex.stop = true
+		ex.res.Unsupported["stopped: violation cap reached (the bound is not exhausted)"]++
+		ex.cond.Broadcast()
 	}
 	ex.mu.Unlock()
 }
